@@ -308,7 +308,7 @@ func C20(r *core.Run) {
 			{{"2.1.0", "", "platform", "wrong", "valid"}},
 			{{"1.9.0", "", "platform", "matching", "valid"}},
 		}
-		kinds := []string{"404", "500", "conn", "trunc"}
+		kinds := []string{"404", "500", "conn", "trunc", "403rate", "403", "401", "429"}
 		for _, run := range []string{"2.0.0", "dev", "2.5.0-rc.1", "10.1.0"} {
 			for _, h := range healthy {
 				for k := 1; k <= 4; k++ {
@@ -380,7 +380,15 @@ func C20(r *core.Run) {
 			case 4:
 				extraEnv = []string{"GOOS=darwin", "GOARCH=arm64", "GOFLAGS=-mod=mod"}
 			}
-			res := core.RunCLI(start, sb, "", append(extraEnv, "CRS_VERIF_RELEASES="+cat, "CRS_VERIF_FAULTS="+c.Faults, "HOME="+sb, "TMPDIR="+sb), "self-update")
+			// the output mode changes what is printed, not whether a failure is one
+			selfUpdateArgs := []string{"self-update"}
+			switch i % 3 {
+			case 1:
+				selfUpdateArgs = []string{"-o", "github", "self-update"}
+			case 2:
+				selfUpdateArgs = []string{"--output=github", "--log-level", "debug", "self-update"}
+			}
+			res := core.RunCLI(start, sb, "", append(extraEnv, "CRS_VERIF_RELEASES="+cat, "CRS_VERIF_FAULTS="+c.Faults, "HOME="+sb, "TMPDIR="+sb), selfUpdateArgs...)
 			o.Runs++
 			after, _ := os.ReadFile(exe)
 			reqLog, _ := os.ReadFile(filepath.Join(cat, "requests.log"))
@@ -495,7 +503,7 @@ func C20(r *core.Run) {
 	r.Cov["traces_validated_against_impl"] = tot.Runs
 	r.Cov["distinct_nontrivial"] = tot.Installed
 	r.Cov["exhaustive"] = len(deaths) == 0
-	r.Cov["bound"] = map[string]any{"release_kinds": len(c20Kinds(true)), "releases_per_catalogue": r.Pick(2, 3), "fault_deviations": r.Pick(1, 2), "fault_kinds": "404, 500, connection error, truncated body at request #1..4", "running_versions": []string{"2.0.0", "v0.0.0-dev", "v2.5.0-rc.1 (a pre-release newer than most releases of the menu)", "v10.1.0 (newer than every release, two-digit major: numeric and textual order disagree)"}}
+	r.Cov["bound"] = map[string]any{"release_kinds": len(c20Kinds(true)), "releases_per_catalogue": r.Pick(2, 3), "fault_deviations": r.Pick(1, 2), "fault_kinds": "404, 500, connection error, truncated body, 403 rate limit answer, 403, 401, 429 at request #1..4; every third execution with -o github", "running_versions": []string{"2.0.0", "v0.0.0-dev", "v2.5.0-rc.1 (a pre-release newer than most releases of the menu)", "v10.1.0 (newer than every release, two-digit major: numeric and textual order disagree)"}}
 	r.Cov["rule"] = "every catalogue of <= n releases over the release kinds (version below/equal/above/far above x published/prerelease/draft x platform asset listed after or before the others / other platforms only (other OS, other architecture, Windows zip with crs-toolchain.exe, .deb named like this platform; all with valid checksums) / none x checksum matching/absent/wrong/for another name x archive valid/corrupt) x running version, plus every placement of <= d HTTP faults over the requests of four reference catalogues; the real binary (repository code + fake transport) is copied into a sandbox and run as `self-update`; afterwards the executable must be byte-identical or the binary packed in a strictly newer, checksum-verified release for this platform with no fault injected; failures need a non-zero exit; states = executions, transitions = HTTP requests served; non-trivial = executions that installed something; other-platform assets: another OS, another architecture (arm64, 386, amd64p32), the Windows zip with an .exe inside, a .deb named like this platform, all with valid checksums; versions include two-digit components (10.0.0, running v10.1.0)"
 	r.Cov["samples"] = []any{c20Case{"2.0.0", []c20Rel{{"2.1.0", "", "platform", "wrong", "valid"}}, ""}, c20Case{"dev", []c20Rel{{"10.0.0", "", "other", "matching", "valid"}, {"2.1.0", "", "platform", "matching", "valid"}}, "3:trunc"}}
 	r.Assume = append(r.Assume, "the GitHub REST shape is the fake's (go-github v30 paths: release list, asset by id, browser download URL); TLS and redirects are outside the model",
